@@ -14,9 +14,19 @@ type Sched struct {
 	preemptions int
 	nextGID     int
 	switches    int
+	sleep       map[int]bool // sleep set (goroutine ids), partial-order reduction
 }
 
-func (s *Sched) clone() *Sched { c := *s; return &c }
+func (s *Sched) clone() *Sched {
+	c := *s
+	if s.sleep != nil {
+		c.sleep = make(map[int]bool, len(s.sleep))
+		for k, v := range s.sleep {
+			c.sleep[k] = v
+		}
+	}
+	return &c
+}
 
 // chan state lives in an Obj so that the trail undoes it:
 // slot0: buffer (Agg of queued values), slot1: closed(bool), slot2: taken counter (uint64),
@@ -104,6 +114,16 @@ func (st *State) canSend(c *ChanObj) bool {
 func (st *State) block(g *Goroutine, why string) status {
 	g.status = gBlocked
 	g.name = why
+	g.pendObj = nil
+	g.pendWrite = true
+	switch w := g.waitOn.(type) {
+	case *ChanObj:
+		if w != nil {
+			g.pendObj = w.st
+		}
+	case Pointer:
+		g.pendObj = w.obj
+	}
 	return stYield
 }
 
@@ -317,7 +337,7 @@ func (st *State) doGo(g *Goroutine, fr *Frame, x *ssa.Go) status {
 
 // yieldPoint gives other goroutines a chance to run before a visible operation.
 // It returns true if the current goroutine should yield now (the instruction will be retried).
-func (st *State) yieldPoint(g *Goroutine, obj *Obj) bool {
+func (st *State) yieldPoint(g *Goroutine, obj *Obj, write ...bool) bool {
 	if len(st.gs) <= 1 || g.id < 0 {
 		return false
 	}
@@ -337,7 +357,19 @@ func (st *State) yieldPoint(g *Goroutine, obj *Obj) bool {
 		return false
 	}
 	g.yielded = true
+	g.pendObj = obj
+	g.pendWrite = len(write) == 0 || write[0]
 	return true
+}
+
+// independent: the next transitions of a and b start with operations on different synchronisation objects.
+// (Every synchronisation operation is a scheduling point, so a transition touches exactly one such object; plain
+// memory shared between goroutines is protected by those objects - data-race freedom is the assumption, see C14.)
+func independent(a, b *Goroutine) bool {
+	if a.pendObj == nil || b.pendObj == nil {
+		return false
+	}
+	return a.pendObj != b.pendObj || (!a.pendWrite && !b.pendWrite)
 }
 
 func (st *State) canProceed(g *Goroutine) bool {
@@ -424,6 +456,11 @@ func (st *State) timeLT(a, b Value) Value {
 // scheduleAndRun runs goroutines until the path forks, ends, or the main goroutine returns.
 func (st *State) scheduleAndRun() event {
 	for {
+		if k, ok := st.schedChoice["sched"]; ok {
+			// a scheduling fork was just taken: switch to the chosen goroutine before running anything
+			delete(st.schedChoice, "sched")
+			st.cur = k
+		}
 		g := st.curG()
 		if g.status == gBlocked {
 			ok := false
@@ -528,15 +565,18 @@ func (st *State) pickNext() (event, bool) {
 		}
 		return evNone, false
 	}
-	if len(runnable) == 1 {
-		st.cur = runnable[0]
-		return evNone, false
+	// partial-order reduction with sleep sets
+	var cands []int
+	for _, r := range runnable {
+		if !st.sched.sleep[st.gs[r].id] {
+			cands = append(cands, r)
+		}
 	}
-	// several runnable goroutines: schedule choice
-	if k, ok := st.schedChoice["sched"]; ok {
-		delete(st.schedChoice, "sched")
-		st.cur = k
-		return evNone, false
+	if len(cands) == 0 {
+		// every enabled transition is asleep: this interleaving is equivalent to one already explored
+		st.endReason, st.endMsg = endAssumeFalse, "sleep-set pruned"
+		st.job.pruned++
+		return evEnd, true
 	}
 	curRunnable := false
 	for _, r := range runnable {
@@ -544,19 +584,42 @@ func (st *State) pickNext() (event, bool) {
 			curRunnable = true
 		}
 	}
+	mkSleep := func(chosen int, earlier []int) map[int]bool {
+		ns := map[int]bool{}
+		cg := st.gs[chosen]
+		for id := range st.sched.sleep {
+			for _, g := range st.gs {
+				if g.id == id && g.status != gDone && independent(g, cg) {
+					ns[id] = true
+				}
+			}
+		}
+		for _, e := range earlier {
+			if independent(st.gs[e], cg) {
+				ns[st.gs[e].id] = true
+			}
+		}
+		return ns
+	}
 	var alts []Alt
-	for _, r := range runnable {
+	for i, r := range cands {
 		r := r
+		earlier := append([]int(nil), cands[:i]...)
 		preempt := curRunnable && r != st.cur && st.gs[st.cur].status != gDone
 		if preempt && st.job.maxPreempt >= 0 && st.sched.preemptions >= st.job.maxPreempt {
 			continue
 		}
 		alts = append(alts, Alt{cond: st.tp.True, apply: func() {
 			st.schedChoice["sched"] = r
+			st.sched.sleep = mkSleep(r, earlier)
 			if preempt {
 				st.sched.preemptions++
 			}
 		}})
+	}
+	if len(alts) == 0 {
+		st.endReason, st.endMsg = endAssumeFalse, "preemption bound"
+		return evEnd, true
 	}
 	if len(alts) == 1 {
 		alts[0].apply()
